@@ -2,6 +2,8 @@
 use verif_harness::props;
 use verif_harness::runner::{Ctx, Tier};
 
+fn c11_main(_: &Ctx) {}
+
 fn main() {
     let args: Vec<String> = std::env::args().skip(1).collect();
     if args.is_empty() {
@@ -15,12 +17,14 @@ fn main() {
     };
     let mut replay: Option<String> = None;
     let mut strict = false;
+    let mut child = false;
     let mut i = 1;
     while i < args.len() {
         match args[i].as_str() {
             "--quick" => tier = Tier::Quick,
             "--thorough" => tier = Tier::Thorough,
             "--strict" => strict = true,
+            "--child" => child = true,
             "--replay" => {
                 i += 1;
                 replay = args.get(i).cloned();
@@ -47,6 +51,10 @@ fn main() {
         "C16" => ("C16", "exploration", props::c16::run_check, props::c16::replay),
         "C17" => ("C17", "exploration", props::c17::run_check, props::c17::replay),
         "C18" => ("C18", "exploration", props::c18::run_check, props::c18::replay),
+        "C19" => ("C19", "exploration", props::c19::run_check, props::c19::replay),
+        "C11" => ("C11", "exploration", c11_main, props::c11::replay),
+        "C14" => ("C14", "exploration", props::c14::run_check, props::c14::replay),
+        "C15" => ("C15", "fault_enumeration", props::c15::run_check, props::c15::replay),
         "C10" => ("C10", "exploration", props::c10::run_check, props::c10::replay),
         "C07" => ("C07", "exploration", props::c07::run_check, props::c07::replay),
         _ => {
@@ -73,7 +81,17 @@ fn main() {
             std::process::exit(code);
         }
         None => {
-            run(&ctx);
+            if prop == "C11" {
+                props::c11::run_check(&ctx, child);
+                if child {
+                    std::process::exit(ctx.finish_child());
+                }
+                // second profile: the release build of the same check, as a child process
+                let rel = std::env::current_exe().unwrap().parent().unwrap().parent().unwrap().join("release").join("verif");
+                ctx.merge_child(&rel, &["C11", if tier == Tier::Quick { "--quick" } else { "--thorough" }, "--child"]);
+            } else {
+                run(&ctx);
+            }
             std::process::exit(ctx.finish());
         }
     }
